@@ -380,7 +380,8 @@ class Program:
         c = self.by_name.get(name, [])
         if not c:
             return []
-        same = [f for f in c if f.uid == from_fn.uid]
+        uid = from_fn if isinstance(from_fn, str) else from_fn.uid
+        same = [f for f in c if f.uid == uid]
         if same:
             return same[:1]
         ext = [f for f in c if not f.static]
@@ -390,8 +391,11 @@ class Program:
         return hdr[:1]
 
     # --- slots -------------------------------------------------------------------
+    def slot_names(self, record, field):
+        return {nm for (nm, _u) in self.slots().get((record, field), ())}
+
     def slots(self):
-        """(record, field) -> set of function names ever stored there (initialisers and stores)"""
+        """(record, field) -> set of (function name, referring unit) ever stored there"""
         if self._slots is not None:
             return self._slots
         sl = defaultdict(set)
@@ -404,26 +408,57 @@ class Program:
                 return v["n"]
             return None
 
-        def scan_init(n):
+        def scan_init(n, uid):
             for x in T.walk(n):
                 if x.get("k") == "rec":
                     for f, v in x.get("f", {}).items():
                         nm = fnref(v)
                         if nm:
-                            sl[(x.get("r", ""), f)].add(nm)
+                            sl[(x.get("r", ""), f)].add((nm, uid))
+        live = self._live_globals()
         for uid in self.uids:
             for g in self.world.unit_globals.get(uid, []):
-                scan_init(g.get("init"))
+                if g["name"] in live:
+                    scan_init(g.get("init"), uid)
         for fn in self.functions():
             for n in fn.events("S"):
                 lf = T.last_field(n.ev["lhs"])
                 if lf and n.ev.get("o") == "=":
                     nm = fnref(n.ev.get("rhs"))
                     if nm:
-                        sl[lf].add(nm)
+                        sl[lf].add((nm, fn.uid))
                 if n.ev.get("decl"):
-                    scan_init(n.ev.get("rhs"))
+                    scan_init(n.ev.get("rhs"), fn.uid)
+        # slots filled from a function-pointer *parameter* (ctx.func = func): the slot receives every
+        # function passed at that parameter position by the callers (two rounds for wrappers)
+        pending = []
+        for fn in self.functions():
+            for n in fn.events("S"):
+                lf = T.last_field(n.ev["lhs"])
+                r = T.strip(n.ev.get("rhs")) if isinstance(n.ev.get("rhs"), dict) else None
+                if lf and n.ev.get("o") == "=" and isinstance(r, dict) and r.get("k") == "v" and r.get("s") == "p" \
+                        and "(*)" in r.get("t", ""):
+                    if r["n"] in fn.params:
+                        pending.append((lf, fn, fn.params.index(r["n"])))
         self._slots = sl
+        self._cb_slots = set(lf for (lf, _f, _pi) in pending)
+        if pending:
+            self._callers = None
+            for _round in range(2):
+                cs = self.callers()
+                for (lf, fn, pi) in pending:
+                    for (cfn, cn) in cs.get(fn.key, []):
+                        args = cn.ev["x"].get("a", [])
+                        if pi < len(args):
+                            nm = fnref(args[pi])
+                            if nm:
+                                sl[lf].add((nm, cfn.uid))
+                            else:
+                                a = T.strip(args[pi])
+                                if isinstance(a, dict) and a.get("k") == "v" and a.get("s") == "p" and a["n"] in cfn.params:
+                                    pending.append((lf, cfn, cfn.params.index(a["n"])))
+                pending = list({(lf, f.key, pi): (lf, f, pi) for (lf, f, pi) in pending}.values())
+            self._callees = {}
         return sl
 
     # --- call resolution ---------------------------------------------------------
@@ -436,9 +471,13 @@ class Program:
         if call.get("fn"):
             out = self.lookup(call["fn"], fn)
         elif call.get("slot") and call["slot"].get("f"):
-            names = self.slots().get((call["slot"].get("r", ""), call["slot"]["f"]), ())
-            for nm in sorted(names):
-                out.extend(self.lookup(nm, fn))
+            exact = self._exact_vtable(fn, call)
+            if exact is not None:
+                out = exact
+            else:
+                names = self.slots().get((call["slot"].get("r", ""), call["slot"]["f"]), ())
+                for (nm, uid) in sorted(names):
+                    out.extend(self.lookup(nm, uid))
         else:
             via = T.strip(call.get("via"))
             if isinstance(via, dict) and via.get("k") == "v" and via.get("s") == "p":
@@ -465,6 +504,124 @@ class Program:
         self._callees[key] = out
         return out
 
+    def _live_globals(self):
+        """names of file-scope objects that the program can actually use: referenced from a function
+        reachable from main() (direct calls, functions whose address is taken in reachable code, functions
+        named in initialisers of live objects), closed through initialisers.  A vtable nobody can reach
+        cannot be called."""
+        if getattr(self, "_live", None) is not None:
+            return self._live
+        inits = {}
+        for uid in self.uids:
+            for g in self.world.unit_globals.get(uid, []):
+                inits.setdefault(g["name"], []).append((g.get("init"), uid))
+        roots = [f for f in self.by_name.get("main", [])]
+        if not roots:
+            self._live = set(inits)
+            return self._live
+        seen_fn = set()
+        live = set()
+        work = list(roots)
+
+        def scan_tree(tr, uid):
+            for x in T.walk(tr):
+                k = x.get("k")
+                if k == "v" and x.get("s") in ("g", "sl"):
+                    if x["n"] not in live:
+                        live.add(x["n"])
+                        for (init, u2) in inits.get(x["n"], []):
+                            scan_tree(init or {}, u2)
+                elif k == "fn":
+                    for f in self.lookup(x["n"], uid):
+                        if f.key not in seen_fn:
+                            work.append(f)
+                elif k == "c" and x.get("fn"):
+                    for f in self.lookup(x["fn"], uid):
+                        if f.key not in seen_fn:
+                            work.append(f)
+        while work:
+            fn = work.pop()
+            if fn.key in seen_fn:
+                continue
+            seen_fn.add(fn.key)
+            for n in fn.nodes():
+                if n.ev:
+                    for k in ("x", "lhs", "rhs"):
+                        if isinstance(n.ev.get(k), dict):
+                            scan_tree(n.ev[k], fn.uid)
+                else:
+                    t = fn.blocks[n.bid].get("t")
+                    if t and isinstance(t.get("c"), dict):
+                        scan_tree(t["c"], fn.uid)
+        self._live = live
+        self._live_fns = seen_fn
+        return live
+
+    def _vtable_of(self, f, slot):
+        """the file-scope vtable object whose `slot` is function f"""
+        for uid in self.uids:
+            for g in self.world.unit_globals.get(uid, []):
+                ii = g.get("init")
+                if isinstance(ii, dict) and ii.get("k") == "rec":
+                    v = T.strip(ii.get("f", {}).get(slot))
+                    if isinstance(v, dict) and v.get("k") == "fn" and v["n"] == f.name and g["file"] == f.file:
+                        return g
+        return None
+
+    def _exact_vtable(self, fn, call):
+        """`v->slot(…)` where v is a local assigned exactly once from a global pointer whose initialiser is
+        the address of a vtable object: resolve to that object's slot only.  None = not that shape."""
+        via = T.strip(call.get("via"))
+        if not (isinstance(via, dict) and via.get("k") == "m"):
+            return None
+        base = T.strip(via.get("b"))
+        # channel->manager->slot where `channel` was produced by an exactly-resolved <vt>->open(…, &channel)
+        if isinstance(base, dict) and base.get("k") == "m" and base.get("f") == "manager":
+            ch = T.strip(base.get("b"))
+            if isinstance(ch, dict) and ch.get("k") == "v" and ch.get("s") == "l":
+                prods = []
+                for n in fn.call_nodes():
+                    for a in n.ev["x"].get("a", []):
+                        a0 = T.strip(a)
+                        if isinstance(a0, dict) and a0.get("k") == "u" and a0.get("o") == "&" and \
+                                T.strip(a0["e"]).get("k") == "v" and T.strip(a0["e"])["n"] == ch["n"]:
+                            prods.append(n)
+                stores = [n for n in fn.events("S") if T.strip(n.ev["lhs"]).get("k") == "v" and
+                          T.strip(n.ev["lhs"])["n"] == ch["n"] and not n.ev.get("decl")]
+                if len(prods) == 1 and not stores and (prods[0].ev["x"].get("slot") or {}).get("f") == "open":
+                    ex = self._exact_vtable(fn, prods[0].ev["x"])
+                    if ex and len(ex) == 1:
+                        vt = self._vtable_of(ex[0], "open")
+                        if vt is not None:
+                            v = T.strip(vt.get("init", {}).get("f", {}).get(via["f"]))
+                            if isinstance(v, dict) and v.get("k") == "fn":
+                                uid = [u.uid for u in self.world.units if u.src == vt["file"]]
+                                return self.lookup(v["n"], uid[0] if uid else fn)
+                            return []
+            return None
+        if not (isinstance(base, dict) and base.get("k") == "v" and base.get("s") == "l"):
+            return None
+        defs = [n for n in fn.events("S") if T.strip(n.ev["lhs"]).get("k") == "v" and T.strip(n.ev["lhs"])["n"] == base["n"]]
+        if len(defs) != 1 or defs[0].ev.get("o") != "=":
+            return None
+        r = T.strip(defs[0].ev.get("rhs"))
+        if not (isinstance(r, dict) and r.get("k") == "v" and r.get("s") == "g"):
+            return None
+        for g in self.world.globals_named(r["n"], self):
+            init = T.strip(g.get("init"))
+            while isinstance(init, dict) and init.get("k") == "u" and init.get("o") == "&":
+                init = T.strip(init["e"])
+            if isinstance(init, dict) and init.get("k") == "v" and init.get("s") == "g":
+                for vt in self.world.globals_named(init["n"], self):
+                    ii = vt.get("init")
+                    if isinstance(ii, dict) and ii.get("k") == "rec":
+                        v = T.strip(ii.get("f", {}).get(via["f"]))
+                        if isinstance(v, dict) and v.get("k") == "fn":
+                            uid = [u.uid for u in self.world.units if u.src == vt["file"]]
+                            return self.lookup(v["n"], uid[0] if uid else fn)
+                        return []
+        return None
+
     def callers(self):
         """callee key -> [(caller Fn, call Node)] for direct calls"""
         if self._callers is not None:
@@ -478,6 +635,37 @@ class Program:
                         cs[g.key].append((fn, n))
         self._callers = cs
         return cs
+
+    def callback_slots(self):
+        """slots that are filled from a function-pointer parameter (ctx.func = func): the functions they hold
+        are the callbacks handed over at the call sites of the enclosing API"""
+        self.slots()
+        return getattr(self, "_cb_slots", set())
+
+    def callees_cs(self, fn):
+        """call-site sensitive successors for reachability: direct/slot callees, plus functions whose address
+        is passed as an argument (they are invoked by the callee on behalf of this caller); calls through
+        callback slots are *not* expanded to every callback ever registered"""
+        out = []
+        cbs = self.callback_slots()
+        for n in fn.call_nodes():
+            c = n.ev["x"]
+            sl = c.get("slot")
+            if sl and (sl.get("r", ""), sl.get("f")) in cbs:
+                continue
+            via = T.strip(c.get("via")) if c.get("via") else None
+            if not c.get("fn") and not sl and isinstance(via, dict) and via.get("k") == "v" and via.get("s") == "p":
+                continue     # call through a function-pointer parameter: accounted at the caller
+            for g in self.callees(fn, c, weak=False):
+                out.append((n, g))
+            for a in c.get("a", []):
+                a0 = T.strip(a)
+                while isinstance(a0, dict) and a0.get("k") == "u" and a0.get("o") in ("&", "*"):
+                    a0 = T.strip(a0["e"])
+                if isinstance(a0, dict) and a0.get("k") == "fn":
+                    for g in self.lookup(a0["n"], fn):
+                        out.append((n, g))
+        return out
 
     def all_callees(self, fn, weak=False):
         out = []
